@@ -7,7 +7,7 @@ EXPLANATION = ("Bounded symbolic execution of the MIR of utils::nms::nms (filter
                "/ HashSet) on N boxes whose scores, heights (rank when no score), pairwise intersections and areas are exact "
                "grid floats selected by symbolic indices; thresholds are free f32. Universal2DBox::intersection and ::area are "
                "uninterpreted but functional (geometry is C08). The oracle states the property directly: subset of the boxes "
-               "passing the score/validity filter, rank order (stable), top-ranked kept, no kept box covered above the threshold "
+               "passing the score/validity filter, rank order (ties either way), top-ranked kept, no kept box covered above the threshold "
                "by a higher-ranked kept box, every dropped box so covered by a kept higher-ranked box; a second run on the "
                "output returns it unchanged.")
 ASSUMPTIONS = ["N <= 3 boxes (quick) / 4 (thorough)", "scores None or from {0.125,0.5,0.875}; heights from {-1,0,1,2,3} (non-positive = invalid box); aspect 1",
@@ -95,26 +95,24 @@ def _mk_nms(n, second_run=False):
         vm.check(BOOL(all(i in P_ for i in out)), "only boxes passing the score filter with positive size are returned")
         for a, b in zip(out, out[1:]):
             vm.check(f_ge(rank(a), rank(b)), "output ordered by decreasing rank")
-            if vm.branch(f_eq(rank(a), rank(b))):
-                vm.check(BOOL(a < b), "equal ranks keep input order (stable)")
+        # ties in rank: the property does not say how they are ordered, so they are accepted either way:
+        #   'strictly higher' is used where something is forbidden, 'higher or equal' where something is required
+        def strictly_higher(a, b):
+            return vm.branch(f_gt(rank(a), rank(b)))
 
-        def higher(a, b):
-            """a ranks before b in the stable rank order"""
-            if vm.branch(f_gt(rank(a), rank(b))):
-                return True
-            if vm.branch(f_eq(rank(a), rank(b))):
-                return a < b
-            return False
+        def not_lower(a, b):
+            return vm.branch(f_ge(rank(a), rank(b)))
         if P_:
-            top = [i for i in P_ if all(i == j or higher(i, j) for j in P_)]
-            vm.check(BOOL(len(top) == 1 and top[0] in out), "the top-ranked box is always kept")
+            top = [i for i in P_ if all(i == j or strictly_higher(i, j) for j in P_)]
+            if len(top) == 1:
+                vm.check(BOOL(top[0] in out), "the (unique) top-ranked box is always kept")
         for b in out:
             for k in out:
-                if k != b and higher(k, b):
+                if k != b and strictly_higher(k, b):
                     vm.check(BOOL(not metric_gt(k, b)), "no kept box is covered above the threshold by a higher-ranked kept box")
         for b in P_:
             if b not in out:
-                vm.check(BOOL(any(higher(k, b) and metric_gt(k, b) for k in out)), "every dropped box is covered above the threshold by a kept higher-ranked box")
+                vm.check(BOOL(any(k != b and not_lower(k, b) and metric_gt(k, b) for k in out)), "every dropped box is covered above the threshold by a kept box ranked at least as high")
         if second_run:
             dets2 = [dets[i] for i in out]
             inp2 = Cell(VecV(tuple(dets2)), 'detections2')
@@ -184,13 +182,15 @@ fn check(dets: &Vec<Det>, thr: f32, sthr: Option<f32>) {
     let st = sthr.unwrap_or(f32::MIN);
     let passed: Vec<usize> = (0..dets.len()).filter(|i| dets[*i].1.unwrap_or(f32::MAX) > st && dets[*i].0.height > 0.0 && dets[*i].0.aspect > 0.0).collect();
     let rank = |i: usize| dets[i].1.unwrap_or(dets[i].0.height);
-    let higher = |a: usize, b: usize| rank(a) > rank(b) || (rank(a) == rank(b) && a < b);
+    // ties in rank are accepted either way: strict where something is forbidden, non-strict where something is required
+    let higher = |a: usize, b: usize| rank(a) > rank(b);
+    let not_lower = |a: usize, b: usize| rank(a) >= rank(b);
     let cover = |k: usize, b: usize| (Universal2DBox::intersection(&dets[k].0, &dets[b].0) as f32 / dets[b].0.area()) > thr;
     for (n, i) in idx.iter().enumerate() {
         assert!(passed.contains(i), "only boxes passing the score filter with positive size are returned");
         assert!(!idx[..n].contains(i), "no box returned twice");
     }
-    for w in idx.windows(2) { assert!(higher(w[0], w[1]), "output ordered by decreasing rank (stable)"); }
+    for w in idx.windows(2) { assert!(not_lower(w[0], w[1]), "output ordered by decreasing rank"); }
     if let Some(top) = passed.iter().find(|i| passed.iter().all(|j| *j == **i || higher(**i, *j))) {
         assert!(idx.contains(top), "the top-ranked box is always kept");
     }
@@ -198,7 +198,7 @@ fn check(dets: &Vec<Det>, thr: f32, sthr: Option<f32>) {
         assert!(!cover(*k, *b), "kept box {} is covered above the threshold by the higher-ranked kept box {}", b, k);
     } } }
     for b in &passed { if !idx.contains(b) {
-        assert!(idx.iter().any(|k| higher(*k, *b) && cover(*k, *b)), "dropped box {} is not covered above the threshold by any kept higher-ranked box", b);
+        assert!(idx.iter().any(|k| k != b && not_lower(*k, *b) && cover(*k, *b)), "dropped box {} is not covered above the threshold by any kept box ranked at least as high", b);
     } }
     let dets2: Vec<Det> = idx.iter().map(|i| dets[*i].clone()).collect();
     let out2 = nms(&dets2, thr, sthr);
